@@ -5,6 +5,16 @@ import tempfile
 import time
 
 
+def worker_init():
+    """die with the parent (PR_SET_PDEATHSIG) so that no solver process outlives a check"""
+    try:
+        import ctypes
+        import signal
+        ctypes.CDLL('libc.so.6').prctl(1, signal.SIGKILL)
+    except Exception:
+        pass
+
+
 def _model_dict(z3, m):
     out = {}
     for d in m.decls():
@@ -104,7 +114,7 @@ def cert_worker(smt2, nrel, elim, order, timeout_s, bound_mode=False):
     import signal
     import z3
     import sympy
-    from symx.terms import to_sympy, from_sympy, free_vars, safe_name
+    from symx.terms import to_sympy, from_sympy, free_vars, safe_name, divisors
     t0 = time.time()
 
     def _alarm(*a):
@@ -129,9 +139,18 @@ def cert_worker(smt2, nrel, elim, order, timeout_s, bound_mode=False):
         el = [safe_name(e) for e in elim if safe_name(e) in fvs]
         gens = el + sorted(n for n in fvs if n not in el)
         syms = [sympy.Symbol(g) for g in gens]
+        den = None
         try:
-            Ns = sympy.expand(to_sympy(N))
             Gs = [sympy.expand(to_sympy(g)) for g in G]
+            try:
+                Ns = sympy.expand(to_sympy(N))
+            except NotImplementedError:
+                if bound_mode:
+                    raise
+                # rational function: clear denominators (z3 re-checks everything below)
+                num, den = sympy.fraction(sympy.together(to_sympy(N, None, True)))
+                Ns = sympy.expand(num)
+                den = sympy.factor(den)
         except NotImplementedError as e:
             return {'ok': False, 'why': 'not polynomial: %s' % e, 'time': time.time() - t0}
         if Ns == 0:
@@ -144,13 +163,24 @@ def cert_worker(smt2, nrel, elim, order, timeout_s, bound_mode=False):
             return {'ok': False, 'why': 'remainder non-zero', 'time': time.time() - t0}
         qz = [from_sympy(x, fvs) for x in q]
         rz = from_sympy(r, fvs) if r != 0 else z3.RealVal(0)
-        ident = N - z3.Sum([a * g for a, g in zip(qz, G)] + [rz]) if G else N - rz
         s = z3.Solver()
         s.set('timeout', int(1000 * max(1, timeout_s - (time.time() - t0))))
-        s.add(ident != 0)
+        if den is None:
+            ident = N - z3.Sum([a * g for a, g in zip(qz, G)] + [rz]) if G else N - rz
+            s.add(ident != 0)
+        else:
+            dz = from_sympy(den, fvs)
+            # wherever no syntactic divisor of N vanishes, N denotes the rational function sympy manipulated
+            for b in divisors(N):
+                s.add(b != 0)
+            s.add(dz != 0)
+            s.add(N * dz != (z3.Sum([a * g for a, g in zip(qz, G)]) if G else z3.RealVal(0)))
         res = str(s.check())
-        return {'ok': res == 'unsat', 'why': 'identity check: ' + res, 'remainder': str(r), 'ncof': len(qz),
-                'names': {k: str(v) for k, v in fvs.items()}, 'time': time.time() - t0}
+        out = {'ok': res == 'unsat', 'why': 'identity check: ' + res, 'remainder': str(r), 'ncof': len(qz),
+               'names': {k: str(v) for k, v in fvs.items()}, 'time': time.time() - t0}
+        if den is not None:
+            out['den'] = str(den)
+        return out
     except TimeoutError:
         return {'ok': False, 'why': 'timeout', 'time': time.time() - t0}
     finally:
